@@ -79,6 +79,11 @@ NeighbourIds(i, conn, fs) ==
     LET keep == SelectSeq(conn[i], LAMBDA k : fs[k].w = 0 /\ fs[k].s = NoShift)
     IN [m \in 1..Len(keep) |-> IF fs[keep[m]].left = i THEN fs[keep[m]].right ELSE fs[keep[m]].left]
 
+\* The parallel cell loop (rayon par_iter over indices): a worker may pick up any index that has not been
+\* claimed while it is idle, and only the worker that claimed an index finishes it.
+ClaimPre(claimed, running, t, i) == running[t] = 0 /\ i \notin claimed
+FinishPre(running, t, i) == i # 0 /\ running[t] = i
+
 SeqToSet(q) == {q[k] : k \in 1..Len(q)}
 Count(q, x) == Cardinality({k \in 1..Len(q) : q[k] = x})
 
